@@ -287,6 +287,6 @@ def tasks(tier):
             for family, ops in FAMILIES.items():
                 for op in ops:
                     out.append(task(MOD, 'run_family', ('C01', 'C03', 'C04', 'C05', 'C08', 'C09', 'C10', 'C15'),
-                                    label=f'expr/{family}/{op}/w{w}/u{int(unchecked)}', cost=10 * len(ops[op][0]),
+                                    label=f'expr/{family}/{op}/w{w}/u{int(unchecked)}', cost=10 * len(ops[op][0]) * (w if w > 2 else 1),
                                     family=family, op=op, w=w, unchecked=unchecked, tier=tier))
     return out
